@@ -521,6 +521,14 @@ def main(argv):
         t = json.load(open(argv[1]))
         spec = props.PROPS[t["property"]]
         unit = [u for u in spec["units"] if u["name"] == t["unit"]][0]
+        if t.get("kind") == "schedule":
+            # engine-B counterexample: replay the schedule on the instrumented real code
+            from . import conc_replay
+            cfgc = dict([c for c in unit["configs"] if c["name"] == t["config"]][0])
+            cfgc["_ops"] = {int(k): tuple(v) for k, v in t.get("ops", {}).items()}
+            ok, detail = getattr(conc_replay, unit.get("replayer", "replay_queue"))(t["property"], unit, cfgc, {"label": t["label"]}, os.path.abspath(argv[1]))
+            print("VREPLAY-RESULT:", ("REPRODUCED " if ok else "NOT-REPRODUCED ") + detail)
+            sys.exit(0)
         print("VREPLAY-RESULT:", run_replay(t["property"], unit, t["harness"], os.path.abspath(argv[1])))
         sys.exit(0)
     print(__doc__)
